@@ -37,7 +37,7 @@ fn beat(histories: u64, pending: &str) -> PyResult<()> {
 
 fn start_watchdog(trace_path: &str) {
     let path = format!("{}.hang", trace_path);
-    let limit: u64 = std::env::var("LMV_WATCHDOG_SECS").ok().and_then(|x| x.parse().ok()).unwrap_or(60);
+    let limit: u64 = std::env::var("LMV_WATCHDOG_SECS").ok().and_then(|x| x.parse().ok()).unwrap_or(150);
     std::thread::spawn(move || {
         let mut last = BEAT.load(std::sync::atomic::Ordering::Relaxed);
         let mut idle = 0u64;
